@@ -37,7 +37,7 @@ def run(tier, replay):
         cj, oj = os.path.join(wd, "cases.json"), os.path.join(wd, "out.json")
         json.dump(cases, open(cj, "w"))
         rc, out = vlib.go_test(wd, "./internal/mapr", OV, "TestC11Replay",
-                               env={"VERIF_CASES": cj, "VERIF_OUT": oj, "VERIF_STYLES": 4 if tier == "quick" else 6}, timeout=3000)
+                               env={"VERIF_CASES": cj, "VERIF_OUT": oj, "VERIF_STYLES": 4 if tier == "quick" else 12}, timeout=3000)
         if rc != 0 or not os.path.exists(oj):
             raise vlib.Inconclusive("harness failed\n" + out[-2500:])
         res = json.load(open(oj))
